@@ -39,30 +39,20 @@ func Distinct(v reflect.Value) interface{} {
 
 	if jtypes.IsArray(v) {
 		items := arrayify(v)
-		visited := make(map[interface{}]struct{})
 		distinctValues := reflect.MakeSlice(reflect.SliceOf(typeInterface), 0, 0)
 
+	Loop:
 		for i := 0; i < items.Len(); i++ {
 			item := jtypes.Resolve(items.Index(i))
 
-			if jtypes.IsMap(item) {
-				// We can't hash a map, so convert it to a
-				// string that is hashable
-				mapItem := fmt.Sprint(item.Interface())
-				if _, ok := visited[mapItem]; ok {
-					continue
+			// Compare by value. (Arrays and objects can't be used
+			// as map keys, and a number's Go type is irrelevant.)
+			for j := 0; j < distinctValues.Len(); j++ {
+				if jtypes.DeepEqual(distinctValues.Index(j), item) {
+					continue Loop
 				}
-				visited[mapItem] = struct{}{}
-				distinctValues = reflect.Append(distinctValues, item)
-
-				continue
 			}
 
-			if _, ok := visited[item.Interface()]; ok {
-				continue
-			}
-
-			visited[item.Interface()] = struct{}{}
 			distinctValues = reflect.Append(distinctValues, item)
 		}
 		return distinctValues.Interface()
